@@ -292,7 +292,7 @@ func c17replay(cas c17case, checkAll bool) (*Violation, string) {
 
 func c17alphabet(thorough bool, depth int) []c17op {
 	vals := []int{-8, 0, 7, 8, 12, 18, 1000}
-	titles := []string{"notice", "NOTICE", "Hint", "panic", "Panic", "warn", "warning", "", "x", `q"uo\te`, "tab\there"}
+	titles := []string{"notice", "NOTICE", "Hint", "panic", "Panic", "warn", "warning", "", "x", `q"uo\te`, "tab\there", "404", "-7"}
 	opts := []int{0, 1, 2, 3, 4, 5, 6, 7}
 	if depth >= 3 {
 		vals = []int{-8, 0, 12, 18}
